@@ -23,6 +23,7 @@ partial def sJson : Json → String
   | .opName n => s!"i{n}"
   | .lit s => "s" ++ hexOfAscii s
   | .arr xs => " ".intercalate (s!"[{xs.length}" :: xs.map sJson)
+  | .obj [("frozenset", .arr xs)] => " ".intercalate ["{1", "frozenset", " ".intercalate (s!"[{xs.length}" :: sortStrings (xs.map sJson))]
   | .obj kvs =>
     let sorted := (kvs.map fun (k, v) => (k, sJson v)).foldl (fun acc x => insertKV x acc) []
     " ".intercalate (("{" ++ toString kvs.length) :: sorted.flatMap fun (k, v) => [k, v])
